@@ -32,7 +32,7 @@ func fleetKey(dbi string, key []byte) []byte {
 }
 
 func areaFleet(r *Rng, n int, dir string) (*AreaOut, error) {
-	out := &AreaOut{Hist: map[string]int{}, Rule: "2-4 real Syncers (one LMDB each) sharing one in-memory bucket, driven op by op with a shared strictly increasing clock: application puts/deletes (native: explicit header timestamps incl. EQUAL timestamps on different instances and timestamp 0; shadow: plain values), SendOnce uploads, LoadOnce merges of ANY stored snapshot of any instance (not necessarily the newest), then a forced quiescence phase (everybody uploads, everybody merges everybody's newest, twice). Native histories are replayed on the proven Fleet model and every instance's logical content is compared key by key; the oracle checks convergence to the last-writer-wins winner on the real LMDBs. distinct = distinct histories; non-trivial = at least two instances wrote the same key"}
+	out := &AreaOut{Hist: map[string]int{}, Rule: "2-4 real Syncers (one LMDB each) sharing one in-memory bucket, driven op by op with a shared strictly increasing clock: application puts/deletes (native: explicit header timestamps incl. EQUAL timestamps on different instances and timestamp 0; shadow: plain values), SendOnce uploads, LoadOnce merges of ANY stored snapshot of any instance (not necessarily the newest; its own included), RESETS (an instance uploads, loses its LMDB and restarts under the same name with an empty one; it merges its own newest snapshot before its next upload, as the real loop does), then a forced quiescence phase (everybody uploads, everybody merges everybody's newest, twice). Native histories are replayed on the proven Fleet model and every instance's logical content is compared key by key; the oracle checks convergence to the last-writer-wins winner on the real LMDBs. distinct = distinct histories; non-trivial = at least two instances wrote the same key"}
 	ctx := context.Background()
 	var cases []string
 	seen := map[string]bool{}
@@ -76,8 +76,25 @@ func areaFleet(r *Rng, n int, dir string) (*AreaOut, error) {
 		written := map[string][]lver{}       // fleet key -> versions written anywhere (native)
 		writers := map[string]map[int]bool{}
 		tick := func() { clock += 1000; setClock(clock) }
+		needsOwn := make([]bool, ni) // reset since its last upload: merges its own newest snapshot before uploading (what the real loop guarantees, C05)
+		nresets := 0
+		var doMerge func(i, x int) error
 
 		doUpload := func(i int) error {
+			if needsOwn[i] {
+				needsOwn[i] = false
+				own := -1
+				for x, u := range uploads {
+					if u.inst == i {
+						own = x
+					}
+				}
+				if own >= 0 {
+					if err := doMerge(i, own); err != nil {
+						return err
+					}
+				}
+			}
 			tick()
 			before, _ := st.List(ctx, "")
 			id, err := insts[i].sy.SendOnce(ctx, insts[i].env)
@@ -101,7 +118,7 @@ func areaFleet(r *Rng, n int, dir string) (*AreaOut, error) {
 			}
 			return nil
 		}
-		doMerge := func(i, x int) error {
+		doMerge = func(i, x int) error {
 			tick()
 			u := uploads[x]
 			blob, err := st.Load(ctx, u.name)
@@ -177,6 +194,22 @@ func areaFleet(r *Rng, n int, dir string) (*AreaOut, error) {
 					}
 				}
 				for _, o := range aops {
+					if o.Del && needsOwn[i] {
+						// after a reset the key may not be back yet: deleting an absent key writes nothing
+						present := false
+						_ = insts[i].env.View(func(txn *lmdb.Txn) error {
+							d, err := txn.OpenDBI(o.DBI, 0)
+							if err != nil {
+								return nil
+							}
+							_, err = txn.Get(d, o.Key)
+							present = err == nil
+							return nil
+						})
+						if !present {
+							continue
+						}
+					}
 					fk := string(fleetKey(o.DBI, o.Key))
 					if shLast[fk] == nil {
 						shLast[fk] = map[int]appOp{}
@@ -221,11 +254,38 @@ func areaFleet(r *Rng, n int, dir string) (*AreaOut, error) {
 			return nil
 		}
 
+		// an instance loses its LMDB right after an upload and restarts under the same name with an EMPTY one (new
+		// process: new Syncer, all volatile state gone); its application may write, and others' snapshots may be
+		// merged, before its own old snapshot is back
+		doReset := func(i int) error {
+			if err := doUpload(i); err != nil {
+				return err
+			}
+			insts[i].close()
+			env, closeEnv, err := newEnv()
+			if err != nil {
+				return err
+			}
+			sy, err := newSyncer(env, st, syncerOpts{Native: native, DupHack: true, Instance: fmt.Sprintf("i%d", i)})
+			if err != nil {
+				closeEnv()
+				return err
+			}
+			insts[i] = &fleetInst{env: env, close: closeEnv, sy: sy}
+			needsOwn[i] = true
+			nresets++
+			ops = append(ops, fmt.Sprintf("FReset %d", i))
+			return nil
+		}
+		withResets := r.Chance(40)
+
 		nops := 5 + r.Intn(30)
 		for s := 0; s < nops; s++ {
 			i := r.Intn(ni)
 			var err error
 			switch k := r.Intn(10); {
+			case withResets && r.Chance(10):
+				err = doReset(i)
 			case k < 5:
 				err = doWrite(i)
 			case k < 7:
@@ -319,7 +379,7 @@ func areaFleet(r *Rng, n int, dir string) (*AreaOut, error) {
 			}
 			out.CaseDescs = append(out.CaseDescs, key)
 		}
-		hist(out.Hist, fmt.Sprintf("native=%v/instances=%d/conflict=%v", native, ni, conflict))
+		hist(out.Hist, fmt.Sprintf("native=%v/instances=%d/conflict=%v/resets=%d", native, ni, conflict, min(nresets, 2)))
 
 		// ---------------- implementation-side oracle (C01, C04) ----------------
 		out.OracleN++
